@@ -63,6 +63,8 @@ class Hp(object):
       self.calls.append(("Choice", args[0], list(vals)))
       if not list(vals):
         raise PyRaise("ValueError", "hp.Choice with no values")
+      if str(args[0]).startswith("network_filters"):
+        return list(vals)[-1]   # a visible (non-1.0) filter scaling
       if "default" in kwargs:
         return kwargs["default"]
       return list(vals)[0]
@@ -76,7 +78,8 @@ class Hp(object):
 NOT_GIVEN = object()
 
 
-def hyper(repo, limit, layer_indexes=NOT_GIVEN):
+def hyper(repo, limit, layer_indexes=NOT_GIVEN, tune_filters="none",
+          exceptions="^$"):
   """An AutoQKHyperModel as its own __init__ leaves it (limit adjustment,
   normalisation of the options), for the given limit / layer_indexes."""
   aq = repo.module(AQ)
@@ -87,7 +90,8 @@ def hyper(repo, limit, layer_indexes=NOT_GIVEN):
   pe.opaque_ext = True
   kw = dict(model=Mock("model", {}), metrics=[],
             target=Mock("target", {"get_reference": lambda pe, a, k: 1}),
-            limit=limit, tune_filters="none", tune_filters_exceptions="^$",
+            limit=limit, tune_filters=tune_filters,
+            tune_filters_exceptions=exceptions,
             quantization_config=tagged_config(), activation_bits=4)
   if layer_indexes is not NOT_GIVEN:
     kw["layer_indexes"] = layer_indexes
@@ -96,10 +100,11 @@ def hyper(repo, limit, layer_indexes=NOT_GIVEN):
   except PyRaise as e:
     raise AnalysisError("unsupported-construct AutoQKHyperModel.__init__ "
                         "raises on the synthetic options: %s" % e)
-  # the regular expression object is replaced by a stand-in that never
-  # matches (tune_filters is "none")
-  o.attrs["tune_filters_exceptions"] = Mock("regex", {
-      "search": lambda pe, a, k: None})
+  if tune_filters == "none":
+    # the regular expression object is replaced by a stand-in that never
+    # matches (it is not consulted when tune_filters is "none")
+    o.attrs["tune_filters_exceptions"] = Mock("regex", {
+        "search": lambda pe, a, k: None})
   return aq, c, o
 
 
@@ -377,6 +382,47 @@ def rule_quantize_model(rep, repo):
               "layer_indexes-selection:" + label,
               "with layer_indexes %s the layers handed to model_quantize "
               "are %s, expected %s" % (label, sorted(got), sorted(want)),
+              loc=loc)
+  # R3 filter scaling: with tune_filters "layer" / "block" every quantized
+  # Dense / Conv layer is rescaled by the chosen factor, except the layers
+  # whose name the exception pattern matches anywhere (search semantics:
+  # "_out$" protects fc_out) - those keep the reference architecture
+  for mode in ("layer", "block"):
+    _, _, o3 = hyper(repo, {"Dense": [4, 4, 4], "Conv2D": [4, 4, 4]},
+                     tune_filters=mode, exceptions="_out$")
+    ls = [mock_layer("Dense", "d0", units=16),
+          mock_layer("Conv2D", "c1", filters=8),
+          mock_layer("Dense", "fc_out", units=3),
+          mock_layer("Conv2D", "conv_out", filters=5)]
+    model3 = Mock("model", {"layers": ls})
+    pe3 = PE(repo, module_overrides={AQ: {
+        "clone_model": lambda pe, a, k: model3,
+        "model_quantize": lambda pe, a, k: Mock("qmodel", {})}})
+    hp3 = Hp()
+    try:
+      pe3.call_func(Func(fn, aq, [], "quantize_model", o3, c), [hp3.mock()],
+                    {})
+    except PyRaise as e:
+      rep.fail("R3", unit, "quantize_model-raises:tune_filters=" + mode,
+               "quantize_model raises %s with tune_filters=%s" % (e, mode),
+               loc=loc)
+      continue
+    got = {l.attrs["name"]: l.attrs["units" if l.attrs["__class__"].attrs[
+        "__name__"] == "Dense" else "filters"] for l in ls}
+    want = {"d0": 32, "c1": 16, "fc_out": 3, "conv_out": 5}
+    rep.check(got == want, "R3", unit, "filter-scaling:" + mode,
+              "tune_filters=%s with exception pattern '_out$' and factor 2.0 "
+              "gives units/filters %s, expected %s (layers the pattern "
+              "matches keep the reference architecture)" % (mode, got, want),
+              loc=loc)
+    names = [n_ for _, n_, _ in hp3.calls if str(n_).startswith(
+        "network_filters")]
+    want_n = ["network_filters_d0", "network_filters_c1"] \
+        if mode == "layer" else ["network_filters"]
+    rep.check(sorted(set(names)) == sorted(want_n), "R3", unit,
+              "filter-hyperparameters:" + mode,
+              "tune_filters=%s creates the filter hyper-parameters %s, "
+              "expected %s" % (mode, sorted(set(names)), sorted(want_n)),
               loc=loc)
   # R5 key agreement with model_quantize
   rk = reader_keys(repo)
